@@ -109,6 +109,19 @@ class C18(Oracle):
                         },
                         facts,
                     )
+        if c.is_bundle() and c.document is not None:
+            own = set(by_uri)
+            for r in c.document.get_records():
+                ident = r.identifier
+                if ident is None or ident.uri in own:
+                    continue
+                for label, x in (("full-uri", ident.uri),):
+                    got = c.get_record(x)
+                    self.count("lookups_parent_only")
+                    if got:
+                        raise Violation("C18", "lookup", "parent-record-returned-by-bundle",
+                                        {"container": ch, "identifier": ident.uri, "spelling": label})
+                break
         for u in ABSENT:
             got = c.get_record(u)
             self.count("lookups_absent")
